@@ -12,6 +12,8 @@ T = {
          "static (un)marshall is exercised immediately after constructing an instance of the class (the class-level state is C09's subject); model of converter.py hand-written, tied by C10's correspondence"),
  "C03": ("Lean theorems buffers_match / param_list_buffers (all argument values), SAT transfer rules for ATA, iSCSI direction; all_commands_allocate_by_rule decided on regenerated constructor descriptions; correspondence with real constructors and the iSCSI stand-in",
          "READ CD over-allocation (3072 B/sector) proved as stated, not judged; READ CAPACITY(10) has no allocation-length field; ATA transfer computation is a hand model tied by exhaustive enumeration of the flag combinations"),
+ "C09": ("Lean theorem isolation for every schedule (any number of threads, any interleaving of constructor / encode / decode actions at attribute-access granularity), witness of the pre-repair design, sequential histories; correspondence incl. two real threads under a deterministic line-level scheduler through all interleavings with <= 2 preemptions",
+         "atomicity of attribute access under the GIL is assumed; the shared-state model (per-class CDB length, immutable class layouts) is hand-written and tied by histories and enumerated schedules; every construction of a class uses an opcode of the same group"),
  "C10": ("Lean theorems about the converter model (all widths, alignments, offsets, values, prior contents) + high-volume correspondence of the four converter functions with the model",
          "Model/Conv.lean is hand-written (tied by correspondence: random layouts, exhaustive narrow fields); zero masks are outside the domain; order independence with blob fields is covered by correspondence only"),
  "C14": ("kernel-decided theorems over the regenerated opcode/service-action/status tables against the T10 oracle, cross-set consistency, and cdb_length_is_sam for all 256 operation codes; exhaustive correspondence of init_cdb",
@@ -20,6 +22,8 @@ T = {
          "the external bindings are stand-ins embodying the stated contract (sgio: CheckConditionError(sense)/UnspecifiedError; iscsi: task.status/raw_sense); what the real C bindings do is not verified; Exec model hand-written, tied exhaustively"),
  "C08": ("Lean theorems never_raises and reports_spc_fields for every non-empty sense buffer (any response code, length, contents), T10 texts of ~80 well-known ASC/ASCQ codes decided on the regenerated table; correspondence incl. all 65536 pairs",
          "sense layout/text tables regenerated from source; Std/Sense.lean text list is partial (remaining table entries modelled, not verified); length-0 buffers outside the property"),
+ "C12": ("Lean theorems: the conformant target (decoding by byte position) refines an abstract disk for every sequence of write/write-same/sync/read commands (induction), write-then-read for any LBA/length/block size/payload, capacity and identity replies; library CDBs are conformant by C01; correspondence runs the real facade over both transports against the Lean target",
+         "the target is a Lean model (real devices/bindings not verified); composition with C01/C03 is by citation of those theorems' conclusions (Conformant hypothesis); WRITE SAME is covered at the target-effect level"),
  "C13": ("Lean theorems about the facade method model for all behaviours of constructor/device/decoder + kernel-decided facts about the 38 methods (shape, documented class, opcode source, by-name forwarding) on the description regenerated from scsi.py; correspondence over a recording device with every subset of optional kwargs and failure injection",
          "the facade model is abstract (construct/execute/unmarshall outcomes as parameters); translator extracts events in source order; buffer contents: one conformant response per decoding method"),
  "C15": ("Lean invariant proved by induction over event histories of any length (sent only through an open handle on the current node, superseded handles closed once, close failure still reopens, vanished node is an error, detection off keeps the handle, released exactly once); correspondence over a virtual OS",
